@@ -152,7 +152,7 @@ def configs(tier):
                             blocks=(('cmp', (('s', 2, 'obj'),)), b1), fb=None))
     # T: values that are equal but of different type (0 / 0.0 / False ...) travelling through
     # function blocks into a consumer that tells them apart; local consistency oracle
-    for net in ('clamp', 'sum', 'sum3'):
+    for net in ('clamp', 'sum', 'sum3', 'notnot'):
         out.append(dict(typed=net))
     # R: a change ripples through n stages CBlock => (event) => SBlock within one burst while a
     # wide adder and the later stages are legitimately re-evaluated after every stage
@@ -502,6 +502,8 @@ def run_typed(cfg, acc):
     """
     net = cfg['typed']
     viol = []
+    if net == 'notnot':
+        return run_notnot(acc)
     doms = {'clamp': [(-1, 0, 1, 0.0, True, -2.5)],
             'sum': [(0, 1, 2), (0, -1.0, 1.0, -2)],
             'sum3': [(0, 1), (0, -1.0), (0.0, 1, False)]}[net]
@@ -558,6 +560,60 @@ def run_typed(cfg, acc):
                     st = acc.state(('typed', net, tuple(repr(x.output) for x in srcs), repr(p.output)))
                     acc.transition(prev, repr(burst), st)
                     acc.outcome(('typed', net, frm, tuple(burst), repr(p.output), q.output))
+                    prev = st
+                await stop(sim.circuit)
+                del task
+            sim.run(driver())
+        acc.execs += 1
+        if viol:
+            break
+    return viol
+
+
+def run_notnot(acc):
+    """
+    The shortcut '_not_n' of an explicit Not block n fed by non-boolean values, read by consumers
+    that do not reduce their input to a truth value: _not_n outputs `not n.output`, a bool.
+    """
+    viol = []
+    vals = (0, 3, '', 'x', True, False, 2.5, None, (), (0,))
+    for order in ('consumer-first', 'not-first'):
+        with Sim() as sim:
+            a = edzed.Input('a', initdef=vals[0])
+
+            def mk_cons():
+                return (edzed.FuncBlock('ident', func=lambda v: v).connect('_not_n'),
+                        edzed.FuncBlock('rep', func=repr).connect('_not_n'),
+                        edzed.Override('ovr', null_value='null').connect(input='_not_n', override=edzed.Const('null')))
+            if order == 'consumer-first':
+                cons = mk_cons()
+                n = edzed.Not('n').connect(a)
+            else:
+                n = edzed.Not('n').connect(a)
+                cons = mk_cons()
+
+            async def driver():
+                task = asyncio.create_task(sim.circuit.run_forever())
+                try:
+                    await sim.circuit.wait_init()
+                except Exception as err:    # pylint: disable=broad-except
+                    viol.append(('start-failed', repr(err)))
+                    await stop(sim.circuit)
+                    return
+                prev = acc.state(('notnot', order, repr(vals[0])))
+                for v in vals[1:] + vals[:1]:
+                    exp = not (not a.output)
+                    got = (n.output, cons[0].output, cons[1].output, cons[2].output)
+                    want = (not a.output, exp, repr(exp), exp)
+                    if got != want or any(type(x) is not type(y) for x, y in zip(got, want)):
+                        viol.append(('inverter-shortcut', f"{order}: a={a.output!r}: (n, ident(_not_n), "
+                                     f"repr(_not_n), Override(_not_n)) = {got!r}, expected {want!r}"))
+                        break
+                    edzed.ExtEvent(a).send(v)
+                    await sim.loop.idle()
+                    st = acc.state(('notnot', order, repr(v)))
+                    acc.transition(prev, repr(v), st)
+                    acc.outcome(('notnot', order, repr(v), repr(cons[0].output)))
                     prev = st
                 await stop(sim.circuit)
                 del task
